@@ -35,6 +35,8 @@ def make_copy(slot):
 
 
 def apply_edits(d, m):
+    for rp in m.get('revert', []):
+        subprocess.check_call(['patch', '-R', '-p1', '-s', '-i', os.path.join(VERIF, rp)], cwd=d)
     for e in m['edits']:
         path = os.path.join(d, e[0])
         s = open(path).read()
@@ -47,6 +49,8 @@ def apply_edits(d, m):
 
 def diff_of(m):
     out = []
+    for rp in m.get('revert', []):
+        out.append('# reverse of %s\n' % rp)
     for e in m['edits']:
         s = open(os.path.join(REPO, e[0])).read()
         t = s.replace(e[1], e[2])
